@@ -75,15 +75,26 @@ func funcOfValue(v ssa.Value) *ssa.Function {
 // (call-through: Once.Do, sort.Slice, ...), encoding/json marshalling reaches
 // every module MarshalJSON method, and fmt formatting reaches the
 // String/Error/Format methods of the static argument types.
-func (p *Program) Succs(f *ssa.Function) []*ssa.Function {
-	if s, ok := p.succCache[f]; ok {
+func (p *Program) Succs(f *ssa.Function) []*ssa.Function { return p.succs(f, true) }
+
+// SuccsDirect is Succs without the reflective callbacks (encoding/json
+// marshalling, fmt formatting), which over-approximate heavily; used for the
+// recursion classification.
+func (p *Program) SuccsDirect(f *ssa.Function) []*ssa.Function { return p.succs(f, false) }
+
+func (p *Program) succs(f *ssa.Function, reflective bool) []*ssa.Function {
+	cache := &p.succCache
+	if !reflective {
+		cache = &p.succCacheD
+	}
+	if s, ok := (*cache)[f]; ok {
 		return s
 	}
-	if p.succCache == nil {
-		p.succCache = map[*ssa.Function][]*ssa.Function{}
+	if *cache == nil {
+		*cache = map[*ssa.Function][]*ssa.Function{}
 	}
 	if !p.FuncInModule(f) {
-		p.succCache[f] = nil
+		(*cache)[f] = nil
 		return nil
 	}
 	cg := p.CallGraph()
@@ -108,6 +119,7 @@ func (p *Program) Succs(f *ssa.Function) []*ssa.Function {
 			name = o.String()
 		}
 		switch {
+		case !reflective:
 		case strings.HasPrefix(name, "encoding/json.Marshal") || name == "(*encoding/json.Encoder).Encode":
 			for _, m := range p.moduleMethodsNamed("MarshalJSON") {
 				set[m] = true
@@ -152,7 +164,7 @@ func (p *Program) Succs(f *ssa.Function) []*ssa.Function {
 		out = append(out, g)
 	}
 	sort.Slice(out, func(i, j int) bool { return out[i].String() < out[j].String() })
-	p.succCache[f] = out
+	(*cache)[f] = out
 	return out
 }
 
